@@ -70,6 +70,12 @@ theorem elem_field_okN {ci : ClassInfo} {fields : List (Str × Val)} {var : XmlV
     · rw [hdef] at hd
       rw [hx, defaultAgrees_list hd]
 
+theorem genField_textN (e : BEnv) (Γ : Ctx) (cfg : SerCfg) (f : Nat) (ns : Option Str) {tv : XmlVar}
+    (hmixed : tv.mixed = false) (htext : tv.isText = true) (hwrap : tv.wrapperQName = none)
+    {x : Val} {d : Data} (hd : encodePrimitive x = .ok d) :
+    genField e Γ cfg (f + 1) ns (tv, x) = .ok [Ev.data d] := by
+  simp [genField, genValue, hmixed, htext, hwrap, hd, bind, Except.bind, pure, Except.pure]
+
 /-- the induction step -/
 theorem main_stepN (ft : Feat) (e : BEnv) (Γ : Ctx) (cfg : SerCfg) (pcfg : ParserConfig) (M : NsMap)
     (hΓ : ctxOK ft Γ = true) (n : Nat) (IH : MainStmtN e Γ cfg pcfg M n) :
@@ -115,7 +121,263 @@ theorem main_stepN (ft : Feat) (e : BEnv) (Γ : Ctx) (cfg : SerCfg) (pcfg : Pars
     have hPA := attrParamsN_get cfg fields mp.attributeVars hAnames
     cases htext : mp.text with
     | some tv =>
-      sorry
+      dsimp only
+      simp only [htext, Bool.and_eq_true] at hbody
+      obtain ⟨hTX, hcontent⟩ := hbody
+      obtain ⟨hEV, hTV⟩ : mp.elementVars = [tv] ∧ FN.textVarOK ft ci tv = true := by
+        simpa [htext] using MF.body
+      simp only [FN.textVarOK, FN.varBase, Bool.and_eq_true, Bool.not_eq_true',
+        Option.isNone_iff_eq_none] at hTV
+      obtain ⟨⟨⟨⟨⟨hisText, hbase⟩, hnillable⟩, hwrap⟩, hkind⟩, hfa⟩ := hTV
+      have hinit : tv.init = true := hbase.1.1.1.1.1.1.1.1
+      have hmixed : tv.mixed = false := hbase.1.1.1.1.1.1.1.2
+      have hseq : tv.sequence = none := by simpa using hbase.1.1.1.2
+      obtain ⟨f0, hf0, _, _⟩ := fieldAgrees_iff.1 hfa
+      have hin : tv.name ∈ fields.map (·.1) := by rw [hnames]; exact mem_names_of_find hf0
+      have htvE : tv ∈ mp.elementVars := by rw [hEV]; simp
+      have hNVe : nextValue mp fields = .ok (emitOfN tv (look fields tv.name)) := by
+        rw [nextValue_N mp fields (fun var hv => by
+          rw [hEV] at hv; simp only [List.mem_singleton] at hv; subst hv
+          exact ⟨hseq, hin⟩), hEV]
+        simp
+      have hK : parseKids e Γ pcfg mp {} none [] =
+          .ok (⟨([] : List (XmlVar × Val)).map (fun en => (some en.1.qname, en.2)), 0⟩, {}) := by
+        simp [parseKids]
+      have hWs0 : WsOK ({} : ElState).wrappers [] := trivial
+      have htvA : tv.name ∉ mp.attributeVars.map (·.name) := by
+        intro hmem
+        obtain ⟨a, ha, han⟩ := List.mem_map.1 hmem
+        exact hAE a ha tv htvE han
+      have hPAtv := attrParamsN_get_none cfg fields mp.attributeVars htvA
+      -- the constructor call, for any final params
+      have hFgen : ∀ PT : Params,
+          (∀ var ∈ mp.attributeVars,
+            PT.get var.name = (attrOfN cfg fields var).map (fun _ => look fields var.name)) →
+          (PT.get tv.name = some (look fields tv.name) ∨
+            (PT.get tv.name = none ∧ f0.default = some (look fields tv.name))) →
+          classFactory Γ mp.clazz PT = .ok (.obj cls fields) := by
+        intro PT hA hT
+        rw [hclazz]
+        apply classFactory_F1 Γ hfind fields _ hnames MF.fieldNodup
+        intro fi hfi
+        obtain ⟨var, hvar, hname⟩ := MF.covered fi hfi
+        rcases List.mem_append.1 hvar with hvA | hvE
+        · exact hfactoryA PT hA fi hfi var hvA hname
+        · rw [hEV] at hvE; simp only [List.mem_singleton] at hvE; subst hvE
+          obtain ⟨hfind', hi', _⟩ := field_of_var hfa MF.fieldNodup hfi hname
+          rw [hf0] at hfind'; cases hfind'
+          exact ⟨hi', by rw [← hname]; exact hT⟩
+      have hxnA : xsiNilOf (attrPairsN cfg mp.attributeVars fields) = none := by
+        simpa [nilAttr] using xsiNilOf_append (attrPairsN cfg mp.attributeVars fields)
+          (fun kv hkv => (hAkeys kv hkv).1) false
+      have hBindA0 : bindAttrs e pcfg mp (attrPairsN cfg mp.attributeVars fields) M =
+          .ok (attrParamsN cfg mp.attributeVars fields, 0) := by simpa [nilAttr] using hBindA false
+      -- the typed text value
+      unfold FN.textValOK at hTX
+      cases hpt : primTypeOf tv with
+      | none => simp [hpt] at hTX
+      | some t =>
+        obtain ⟨hty, _⟩ := primTypeOf_some hpt
+        simp only [hpt] at hTX hkind
+        -- three kinds of content: no data (with or without `xsi:nil`), data
+        by_cases htok : tv.tokens = true
+        · -- a token list
+          simp only [htok, if_true, Bool.and_eq_true, Bool.or_eq_true, Bool.not_eq_true',
+            decide_eq_true_eq] at hTX hkind
+          obtain ⟨ys, hlook, hys⟩ := toks_of hTX.1
+          obtain ⟨f', rfl⟩ : ∃ f', f = f' + 1 := ⟨f - 1, by omega⟩
+          have hgen := genField_textN e Γ cfg f' (targetUri q) hmixed hisText hwrap
+            (encodePrimitive_toks hys)
+          have hdef : f0.default = some (.list []) := by
+            obtain ⟨_, _, hd⟩ := field_of_var hfa MF.fieldNodup (List.mem_of_find?_eq_some hf0)
+              (by have := List.find?_some hf0; simp only [decide_eq_true_eq] at this; exact this.symm)
+            rw [hkind.2] at hd
+            exact defaultAgrees_list hd
+          cases ys with
+          | nil =>
+            -- no character data; `xsi:nil` is excluded by `textValOK`
+            have hN : (nl || mp.nillable) = false := by
+              rcases hTX.2 with h | h
+              · exact h
+              · simp [hlook, Val.truthy] at h
+            have hT : bindText e pcfg mp (xsiNilOf (attrPairsN cfg mp.attributeVars fields)) M
+                (bindEntries (attrParamsN cfg mp.attributeVars fields) []) none =
+                .ok (false, attrParamsN cfg mp.attributeVars fields, 0) := by
+              simp [bindText, htext, bindEntries, hxnA]
+            have hF := hFgen (attrParamsN cfg mp.attributeVars fields) hPA
+              (Or.inr ⟨hPAtv, by rw [hlook]; exact hdef⟩)
+            have hparse := parseNode_element_N e Γ pcfg mp q (attrPairsN cfg mp.attributeVars fields) M
+              none [] [] {} _ _ false (.obj cls fields) MF.choices MF.wild
+              (fun h => by rw [hxnA] at h; cases h) hK (fun _ h => by cases h) hWs0 hBindA0 hT hF
+            have hsubw := SubW_elem_dataN (M := M) (isDt := isDatatype Γ) q
+              (attrEvsN cfg mp.attributeVars fields ++ nilEvs (nl || mp.nillable))
+              (attrPairsN cfg mp.attributeVars fields) (nl || mp.nillable) (tokData []) none rfl
+              (hAW _) (fun kv hkv => (hAkeys kv hkv).1)
+            refine ⟨[Ev.start q] ++ (attrEvsN cfg mp.attributeVars fields ++ nilEvs (nl || mp.nillable)) ++
+                [Ev.data (tokData [])] ++ [Ev.end q],
+              attrPairsN cfg mp.attributeVars fields, none, [], ?_, ?_, ?_, ?_,
+              fun kv hkv => (hAkeys kv hkv).2, Or.inl hxnA, ?_⟩
+            · simp [hNVe, hlook, emitOfN, hgen, bind, Except.bind, pure, Except.pure]
+            · simp [hlook, textHasData, hN, nilAttr, textTextN, optText, joinTok, tokStrs, List.intercalate]
+            · simpa [hlook, textHasData, hN, nilAttr, textTextN, optText, joinTok, tokStrs,
+                List.intercalate, treeSax, treesSax, dataSax] using hsubw
+            · simp [plain, plainList]
+            · simpa [hlook, textHasData, hN, nilAttr, textTextN, optText, joinTok, tokStrs,
+                List.intercalate] using hparse
+          | cons a l =>
+            have hpv := parseVar_toks e pcfg tv.toVarCore M htok hty hys
+            have hjoin : optText (joinTok (a :: l)) = some (joinTok (a :: l)) := by
+              simp [optText, joinTok_ne_nil hys]
+            have hT : bindText e pcfg mp (xsiNilOf (attrPairsN cfg mp.attributeVars fields)) M
+                (bindEntries (attrParamsN cfg mp.attributeVars fields) []) (some (joinTok (a :: l))) =
+                .ok (true, (attrParamsN cfg mp.attributeVars fields).set tv.name (.list (a :: l)), 0) := by
+              simp [bindText, htext, bindEntries, hxnA, hpv, hinit, bind, Except.bind, pure, Except.pure]
+            have hF := hFgen ((attrParamsN cfg mp.attributeVars fields).set tv.name (.list (a :: l)))
+              (fun var hv => by
+                rw [Params.get_set_ne _ _ (fun h => htvA (List.mem_map.2 ⟨var, hv, h⟩))]
+                exact hPA var hv)
+              (Or.inl (by rw [Params.get_set_self, hlook]))
+            have hparse := parseNode_element_N e Γ pcfg mp q (attrPairsN cfg mp.attributeVars fields) M
+              (some (joinTok (a :: l))) [] [] {} _ _ true (.obj cls fields) MF.choices MF.wild
+              (fun h => by rw [hxnA] at h; cases h) hK (fun _ h => by cases h) hWs0 hBindA0 hT hF
+            have hsubw := SubW_elem_dataN (M := M) (isDt := isDatatype Γ) q
+              (attrEvsN cfg mp.attributeVars fields ++ nilEvs (nl || mp.nillable))
+              (attrPairsN cfg mp.attributeVars fields) (nl || mp.nillable) (tokData (a :: l)) _
+              (encodeData_toks M hys) (hAW _) (fun kv hkv => (hAkeys kv hkv).1)
+            refine ⟨[Ev.start q] ++ (attrEvsN cfg mp.attributeVars fields ++ nilEvs (nl || mp.nillable)) ++
+                [Ev.data (tokData (a :: l))] ++ [Ev.end q],
+              attrPairsN cfg mp.attributeVars fields, some (joinTok (a :: l)), [], ?_, ?_, ?_, ?_,
+              fun kv hkv => (hAkeys kv hkv).2, Or.inl hxnA, ?_⟩
+            · simp [hNVe, hlook, emitOfN, hgen, bind, Except.bind, pure, Except.pure]
+            · simp [hlook, textHasData, textTextN, hjoin]
+            · have := treeSax_optText M q (attrPairsN cfg mp.attributeVars fields) (joinTok (a :: l))
+              rw [hjoin] at this
+              simpa [hlook, textHasData, textTextN, hjoin, this] using hsubw
+            · simp [plain, plainList]
+            · simpa [hlook, textHasData, textTextN, hjoin] using hparse
+        · have htok' : tv.tokens = false := by simpa using htok
+          simp only [htok', Bool.false_eq_true, if_false] at hTX hkind
+          split at hTX
+          · -- the text is `None`
+            rename_i hlook
+            simp only [hlook, textHasData, Bool.or_false, Bool.or_eq_true, Bool.not_eq_true'] at hcontent hTX
+            have hxn := xsiNilOf_append (attrPairsN cfg mp.attributeVars fields)
+              (fun kv hkv => (hAkeys kv hkv).1) (nl || mp.nillable)
+            have hT : bindText e pcfg mp
+                (xsiNilOf (attrPairsN cfg mp.attributeVars fields ++ nilAttr (nl || mp.nillable))) M
+                (bindEntries (attrParamsN cfg mp.attributeVars fields) []) none =
+                .ok ((nl || mp.nillable),
+                  if (nl || mp.nillable) then (attrParamsN cfg mp.attributeVars fields).set tv.name .none
+                  else attrParamsN cfg mp.attributeVars fields, 0) := by
+              rw [hxn]
+              cases hN : (nl || mp.nillable) <;>
+                simp [bindText, htext, bindEntries, hinit, bind, Except.bind, pure, Except.pure]
+            have hF : classFactory Γ mp.clazz
+                (if (nl || mp.nillable) then (attrParamsN cfg mp.attributeVars fields).set tv.name .none
+                  else attrParamsN cfg mp.attributeVars fields) = .ok (.obj cls fields) := by
+              cases hN : (nl || mp.nillable) with
+              | true =>
+                simp only [if_true]
+                exact hFgen _ (fun var hv => by
+                    rw [Params.get_set_ne _ _ (fun h => htvA (List.mem_map.2 ⟨var, hv, h⟩))]
+                    exact hPA var hv)
+                  (Or.inl (by rw [Params.get_set_self, hlook]))
+              | false =>
+                simp only [Bool.false_eq_true, if_false]
+                have hfd : fdNone ci tv.name = true := by
+                  rcases hTX with h | h
+                  · simp only [Bool.or_eq_false_iff] at hN
+                    rcases h with h | h
+                    · rw [hN.1] at h; cases h
+                    · rw [hN.2] at h; cases h
+                  · exact h
+                obtain ⟨f', hf', hdn⟩ := fdNone_iff.1 hfd
+                rw [hf0] at hf'; cases hf'
+                exact hFgen _ hPA (Or.inr ⟨hPAtv, by rw [hlook, hdn]⟩)
+            have hparse := parseNode_element_N e Γ pcfg mp q
+              (attrPairsN cfg mp.attributeVars fields ++ nilAttr (nl || mp.nillable)) M none [] [] {} _ _ _
+              (.obj cls fields) MF.choices MF.wild
+              (fun h => by
+                rw [hxn] at h
+                cases hN : (nl || mp.nillable) with
+                | false => simp [hN] at h
+                | true =>
+                  rcases hcontent with h' | h'
+                  · simpa [h'] using hN
+                  · exact h')
+              hK (fun _ h => by cases h) hWs0 (hBindA _) hT hF
+            have hsubw := SubW_elemN (M := M) (isDt := isDatatype Γ) q
+              (attrEvsN cfg mp.attributeVars fields ++ nilEvs (nl || mp.nillable))
+              (attrPairsN cfg mp.attributeVars fields) (nl || mp.nillable) [] []
+              (hAW _) (fun kv hkv => (hAkeys kv hkv).1) (BodyW_nil M _)
+            refine ⟨[Ev.start q] ++ (attrEvsN cfg mp.attributeVars fields ++ nilEvs (nl || mp.nillable)) ++
+                [] ++ [Ev.end q],
+              attrPairsN cfg mp.attributeVars fields ++ nilAttr (nl || mp.nillable), none, [], ?_, ?_, ?_,
+              ?_, noType_append _ (fun kv hkv => (hAkeys kv hkv).2) (nl || mp.nillable), ?_, ?_⟩
+            · simp [hNVe, hlook, emitOfN, hnillable, bind, Except.bind, pure, Except.pure]
+            · simp [hlook, textHasData, textTextN]
+            · simpa [hlook, textHasData, textTextN, treeSax, treesSax] using hsubw
+            · simp [plain, plainList]
+            · rw [hxn]
+              cases hN : (nl || mp.nillable) with
+              | false => exact Or.inl (by simp)
+              | true => exact Or.inr ⟨by simp, rfl⟩
+            · simpa [hlook, textHasData, textTextN] using hparse
+          · -- the text is a primitive
+            rename_i p hlook
+            simp only [Bool.and_eq_true, Bool.or_eq_true, decide_eq_true_eq] at hTX
+            obtain ⟨hpt', hemp⟩ := hTX
+            obtain ⟨f', rfl⟩ : ∃ f', f = f' + 1 := ⟨f - 1, by omega⟩
+            have hgen := genField_textN e Γ cfg f' (targetUri q) hmixed hisText hwrap
+              (encodePrimitive_prim hpt')
+            have hparse : parseNode e Γ pcfg
+                (.element mp (attrPairsN cfg mp.attributeVars fields) M false none
+                  (xsiNilOf (attrPairsN cfg mp.attributeVars fields)))
+                (.node q (attrPairsN cfg mp.attributeVars fields) M (optText (serPrim p)) [] none) =
+                .ok ⟨[(some q, .obj cls fields)], 0⟩ := by
+              by_cases hs : serPrim p = []
+              · have hp := (serPrim_eq_nil hpt').1 hs
+                have hT : bindText e pcfg mp (xsiNilOf (attrPairsN cfg mp.attributeVars fields)) M
+                    (bindEntries (attrParamsN cfg mp.attributeVars fields) []) (optText (serPrim p)) =
+                    .ok (false, attrParamsN cfg mp.attributeVars fields, 0) := by
+                  simp [bindText, htext, bindEntries, optText, hs, hxnA]
+                have hF := hFgen (attrParamsN cfg mp.attributeVars fields) hPA (by
+                  rcases hemp with hemp | hemp
+                  · exact absurd hp hemp
+                  · obtain ⟨f'', hf'', hdn⟩ := fdEmptyStr_iff.1 hemp
+                    rw [hf0] at hf''; cases hf''
+                    exact Or.inr ⟨hPAtv, by rw [hlook, hdn, hp]⟩)
+                exact parseNode_element_N e Γ pcfg mp q _ M _ [] [] {} _ _ false (.obj cls fields)
+                  MF.choices MF.wild (fun h => by rw [hxnA] at h; cases h) hK (fun _ h => by cases h)
+                  hWs0 hBindA0 hT hF
+              · have hpv := parseVar_serPrim e pcfg tv.toVarCore p t M htok' hty hpt'
+                have hT : bindText e pcfg mp (xsiNilOf (attrPairsN cfg mp.attributeVars fields)) M
+                    (bindEntries (attrParamsN cfg mp.attributeVars fields) []) (optText (serPrim p)) =
+                    .ok (true, (attrParamsN cfg mp.attributeVars fields).set tv.name (.prim p), 0) := by
+                  simp [bindText, htext, bindEntries, optText, hs, hpv, hinit, hxnA, bind, Except.bind,
+                    pure, Except.pure]
+                have hF := hFgen ((attrParamsN cfg mp.attributeVars fields).set tv.name (.prim p))
+                  (fun var hv => by
+                    rw [Params.get_set_ne _ _ (fun h => htvA (List.mem_map.2 ⟨var, hv, h⟩))]
+                    exact hPA var hv)
+                  (Or.inl (by rw [Params.get_set_self, hlook]))
+                exact parseNode_element_N e Γ pcfg mp q _ M _ [] [] {} _ _ true (.obj cls fields)
+                  MF.choices MF.wild (fun h => by rw [hxnA] at h; cases h) hK (fun _ h => by cases h)
+                  hWs0 hBindA0 hT hF
+            have hsubw := SubW_elem_dataN (M := M) (isDt := isDatatype Γ) q
+              (attrEvsN cfg mp.attributeVars fields ++ nilEvs (nl || mp.nillable))
+              (attrPairsN cfg mp.attributeVars fields) (nl || mp.nillable) (.prim (.str (serPrim p)))
+              (some (serPrim p)) rfl (hAW _) (fun kv hkv => (hAkeys kv hkv).1)
+            refine ⟨[Ev.start q] ++ (attrEvsN cfg mp.attributeVars fields ++ nilEvs (nl || mp.nillable)) ++
+                [Ev.data (.prim (.str (serPrim p)))] ++ [Ev.end q],
+              attrPairsN cfg mp.attributeVars fields, optText (serPrim p), [], ?_, ?_, ?_, ?_,
+              fun kv hkv => (hAkeys kv hkv).2, Or.inl hxnA, ?_⟩
+            · simp [hNVe, hlook, emitOfN, hgen, bind, Except.bind, pure, Except.pure]
+            · simp [hlook, textHasData, textTextN]
+            · simpa [hlook, textHasData, textTextN, treeSax_optText] using hsubw
+            · simp [plain, plainList]
+            · simpa [hlook, textHasData, textTextN] using hparse
+          · cases hTX
     | none =>
       dsimp only
       simp only [htext, Bool.and_eq_true, List.all_eq_true] at hbody
@@ -314,5 +576,53 @@ theorem main_stepN (ft : Feat) (e : BEnv) (Γ : Ctx) (cfg : SerCfg) (pcfg : Pars
         · simp [hke, plain, hplainK]
         · simpa [hke] using hparse
   | _ => simp [FN.valObjN] at hval
+
+
+theorem main_allN (ft : Feat) (e : BEnv) (Γ : Ctx) (cfg : SerCfg) (pcfg : ParserConfig) (M : NsMap)
+    (hΓ : ctxOK ft Γ = true) : ∀ n, MainStmtN e Γ cfg pcfg M n
+  | 0 => by
+    intro v c pnsG pnsP oq q fuel mg mp nl _ _ _ _ _ hval _
+    simp [FN.valObjN] at hval
+  | n + 1 => main_stepN ft e Γ cfg pcfg M hΓ n (main_allN ft e Γ cfg pcfg M hΓ n)
+
+/-- the round trip for the fragment of feature set `ft`: generate, write, read back, parse -/
+theorem roundtrip_FN (ft : Feat) (e : BEnv) (Γ : Ctx) (cfg : SerCfg) (pcfg : ParserConfig)
+    (c : ClassId) (v : Val) (hΓ : ctxOK ft Γ = true) (hv : valOK e Γ c v = true) :
+    ∃ evs t, generate e Γ cfg v = .ok evs ∧ eventsTree (isDatatype Γ) evs = .ok t ∧
+      parseRoot e Γ pcfg c t = .ok (v, 0) := by
+  unfold valOK at hv
+  obtain ⟨n, hn⟩ : ∃ n, v.size = n + 1 := ⟨v.size - 1, by cases v <;> simp [Val.size] <;> omega⟩
+  rw [hn] at hv
+  obtain ⟨fields, rfl⟩ : ∃ fields, v = .obj c fields := by
+    cases v <;> simp [FN.valObjN] at hv
+    rename_i cls fs
+    exact ⟨fs, by rw [hv.1]⟩
+  obtain ⟨m, hm⟩ : ∃ m, metaOf Γ c none = some m := by
+    simp only [FN.valObjN] at hv
+    cases hf : Γ.find c with
+    | none => simp [hf] at hv
+    | some ci =>
+      cases hmf : ci.metaFor none with
+      | none => simp [hf, hmf] at hv
+      | some m => exact ⟨m, by simp [metaOf, hf, hmf]⟩
+  have hgenEq : generate e Γ cfg (.obj c fields) =
+      genObj e Γ cfg (4 * (Val.obj c fields).size + 8) (.obj c fields) none none false none := rfl
+  have key := fun M => main_allN ft e Γ cfg pcfg M hΓ (n + 1) (.obj c fields) c none none none m.qname
+    (4 * (Val.obj c fields).size + 8) m m false hm hm rfl rfl (nsAgree_self Γ m) hv (by omega)
+  obtain ⟨evs, _, _, _, hgen0, _⟩ := key []
+  obtain ⟨evs', a, text, kids, hgen, htree, hsub, hplain, hxt, _, hparse⟩ :=
+    key (prefixMap (collectUris evs))
+  have hevs : evs' = evs := by rw [hgen0] at hgen; cases hgen; rfl
+  subst hevs
+  refine ⟨evs', treeNN Γ cfg (prefixMap (collectUris evs')) (n + 1) none false m.qname (.obj c fields),
+    by rw [hgenEq]; exact hgen, ?_, ?_⟩
+  · have hfold := hsub.2 {} rfl (fun _ => rfl)
+    simp only [eventsTree, eventsSax, hfold, bind, Except.bind, pure, Except.pure, afterW,
+      WState.flush, List.nil_append, saxTree_root _ _ hplain]
+  · rw [htree] at hparse ⊢
+    have hfetch : Γ.fetch c none none = .ok m := by
+      simp only [metaOf] at hm
+      simp [Ctx.fetch, hm]
+    simp [parseRoot, xsiTypeOf_none e a _ hxt, hfetch, hparse, bind, Except.bind, pure, Except.pure]
 
 end Proofs.C01
